@@ -87,7 +87,7 @@ def main(tier, replay):
         "inverse_SSRB and extend_segment also on one-ring data (a single direct sinogram / a single axial position). "
         "Real overlap_interpolate (VectorWithOffset and iterator versions), zoom_image / zoom_image_in_place (2-D-parameter, 3-D-parameter, two-step; the input's "
         "first plane is any of -2..2 for all interfaces, the 2-D-parameter call on a first plane != 0 runs in a child process because it is undefined behaviour "
-        "without build/fixes/C15-3) with all three ZoomOptions, find_centre_of_gravity_in_mm on seeded small arrays/images against the exact Rat model. "
+        "without docs/fixes/C15-3) with all three ZoomOptions, find_centre_of_gravity_in_mm on seeded small arrays/images against the exact Rat model. "
         "zoom_viewgram(out, in, x, y), zoom_viewgram(viewgram, zoom, min, max, x, y) and zoom_viewgrams on the symmetry-related set "
         "(DataSymmetriesForBins_PET_CartesianGrid) of arc-corrected viewgrams (8..16 detectors, 1..3 rings, view mashing, azimuthal offset, centred and "
         "non-centred tangential ranges, TOF and non-TOF, zoom 0.3..3, shifts up to 2.5 bins in x and y, covering and truncating new ranges, the identity "
@@ -107,7 +107,7 @@ def main(tier, replay):
         "added views equal the views one period away (360 degrees: same tangential position; 180 degrees, segment 0: mirrored).")
     chk.assumptions += ["32-bit overflow not modelled", "float m / TOF-k comparisons of SSRB (1E-4 mm) replaced by exact quarter-ring / unmashed-bin integers "
                         "(valid while the rounding error of the float get_m stays below 1E-4 mm; for scanners whose axial positions reach 1024 mm -- UPENN 5/6 rings -- "
-                        "it does not: known finding ssrb:m-tolerance-below-float-precision-on-scanners-longer-than-1m, repair build/fixes/C15-4; such cases are "
+                        "it does not: known finding ssrb:m-tolerance-below-float-precision-on-scanners-longer-than-1m, repair docs/fixes/C15-4; such cases are "
                         "reported under that key and withheld from the model comparison only when the implementation loses counts and does nothing else wrong)",
                         "SSRB data comparison with the model only for geometries with (output sinograms x input segments) <= 1.7e5; larger ones (span 1 with all ring "
                         "differences on scanners with more than 32 rings) are compared on geometry (ssrbinfo/ssrbm/ssrbphi + geometry oracles) only",
@@ -118,7 +118,7 @@ def main(tier, replay):
                         "float rounding of the implementation is bounded, not modelled (except the single binary32 division of the normalised SSRB)",
                         "zoom_viewgram: cos(phi), sin(phi) are taken from binary64 cos/sin of the float angle returned by get_phi (get_phi itself: C01/C12; the "
                         "oracle recomputes the angle from the view number)",
-                        "model = documented behaviour where the pinned revision has a defect with a repair in build/fixes (C15-1 zoom_viewgram identity request, "
+                        "model = documented behaviour where the pinned revision has a defect with a repair in docs/fixes (C15-1 zoom_viewgram identity request, "
                         "C15-2 inverse_SSRB guards, C15-3 plane numbering of the 2-D-parameter zoom_image): without the repair the check reports the defect",
                         "extend_segment: coverages for which the source's 5-samplings comparison is an equality (decided by float rounding) are not generated",
                         "SSRB(output_filename,...): TOF mashing factor of data with a single TOF bin is not compared after the Interfile round trip (file format: C02)"]
